@@ -564,8 +564,8 @@ impl Prop for C15 {
     }
     fn work(&self, tier: Tier) -> Work {
         match tier {
-            Tier::Quick => Work { cases_per_worker: 800, workers: 8 },
-            Tier::Thorough => Work { cases_per_worker: 20_000, workers: 16 },
+            Tier::Quick => Work { cases_per_worker: 4000, workers: 8 },
+            Tier::Thorough => Work { cases_per_worker: 80000, workers: 16 },
         }
     }
     fn strategy(&self, _tier: Tier) -> BoxedStrategy<Sc15> {
